@@ -748,7 +748,7 @@ def callFnL (c : ECfg) (L : Lim) (ev : EvL) (C : Ctx) (f : Fn) (args : List Expr
         match no with
         | .val (.str name) => do
           measure L (sizeofV c (.str name))
-          pure (.ctx ({ funs := [(name, body)] } :: C))
+          pure (.ctx ({ funs := [(fnKey name, body)] } :: C))
         | o => if isLazyL o then .error (.base .outOfDomain) else .error (.base .noFunction)
       | _ => .error (.base .noFunction)
   | .list =>
@@ -830,7 +830,7 @@ def rawL (c : ECfg) (L : Lim) (ev : EvL) (C : Ctx) : Expr → RL ObjL
   | .member e name => do let r ← ev C e; memberOfL c L r name
   | .call f args kw => callFnL c L ev C f args kw
   | .ucall f args kw =>
-    match C.getFun f with
+    match C.getFun (fnKey f) with
     | none => .error (.base .unknownFunction)
     | some (body, D) => do
       let names ← liftR (kwNames kw)
